@@ -18,6 +18,7 @@ package c06
 import (
 	"context"
 	"database/sql"
+	"errors"
 	"fmt"
 	"reflect"
 	"regexp"
@@ -100,8 +101,12 @@ func newEnv() *env {
 	}
 	e.seed()
 	e.lite.Rec.Resume()
-	e.root = pair{d: testdb.Dry(false, gorm.Config{NowFunc: fixedNow}), l: e.lite.DB}
+	e.root = pair{d: newDry(), l: e.lite.DB}
 	return e
+}
+
+func newDry() *gorm.DB {
+	return testdb.Dry(false, gorm.Config{NowFunc: fixedNow, ConnPool: &dryPool{}})
 }
 
 func (e *env) seed() {
@@ -535,16 +540,51 @@ var hows = []howDef{
 		return both(p, func(db *gorm.DB) *gorm.DB { return db.Session(&gorm.Session{NewDB: true}) })
 	}},
 	{"Begin", true, func(e *env, p pair, n int) pair {
-		// the dry-run handle has no connection pool: its twin of Begin is the
-		// Session call Begin itself performs (a context-carrying Session)
+		// the dry-run handle begins a "transaction" on its connection-less pool
+		// (dryPool), so that both twins go through the same gorm code
 		tx := p.l.Begin()
 		if tx.Error != nil {
 			panic("harness: Begin: " + tx.Error.Error())
 		}
 		e.txs = append(e.txs, tx)
-		return pair{d: p.d.Session(&gorm.Session{Context: p.d.Statement.Context}), l: tx}
+		dtx := p.d.Begin()
+		if dtx.Error != nil {
+			panic("harness: dry Begin: " + dtx.Error.Error())
+		}
+		return pair{d: dtx, l: tx}
 	}},
 }
+
+// dryPool is the connection pool of the dry-run handle: it is never asked to
+// run SQL (DryRun), it only lets Begin / Commit / Rollback succeed so that
+// Begin derives a handle exactly as it does on a real pool.
+type dryPool struct{}
+
+var errDryPool = errors.New("harness: the dry-run pool was asked to run SQL")
+
+func (*dryPool) PrepareContext(context.Context, string) (*sql.Stmt, error) { return nil, errDryPool }
+func (*dryPool) ExecContext(context.Context, string, ...interface{}) (sql.Result, error) {
+	return nil, errDryPool
+}
+func (*dryPool) QueryContext(context.Context, string, ...interface{}) (*sql.Rows, error) {
+	return nil, errDryPool
+}
+func (*dryPool) QueryRowContext(context.Context, string, ...interface{}) *sql.Row { return nil }
+func (*dryPool) BeginTx(context.Context, *sql.TxOptions) (gorm.ConnPool, error)   { return &dryTx{}, nil }
+
+// dryTx is what dryPool.BeginTx returns: not a beginner itself (like *sql.Tx).
+type dryTx struct{}
+
+func (*dryTx) PrepareContext(context.Context, string) (*sql.Stmt, error) { return nil, errDryPool }
+func (*dryTx) ExecContext(context.Context, string, ...interface{}) (sql.Result, error) {
+	return nil, errDryPool
+}
+func (*dryTx) QueryContext(context.Context, string, ...interface{}) (*sql.Rows, error) {
+	return nil, errDryPool
+}
+func (*dryTx) QueryRowContext(context.Context, string, ...interface{}) *sql.Row { return nil }
+func (*dryTx) Commit() error                                                     { return nil }
+func (*dryTx) Rollback() error                                                   { return nil }
 
 var howIndex = map[string]int{}
 
@@ -717,7 +757,7 @@ func (p path) String() string {
 	if len(p.calls) > 0 {
 		s += "." + callsTextFull(p.calls, p.nodes)
 	}
-	return s + "." + fins[p.fin].text
+	return s + " => " + fins[p.fin].text // the separator keeps "chain call Model + finisher Updates" apart from "finisher Model.Updates"
 }
 
 // ---- outcome of one finisher ----------------------------------------------------------------------
@@ -1615,7 +1655,7 @@ func idx(text string) int {
 // (Returning.MergeClause used to append into the shared backing array, so the
 // second chain overwrote the first chain's column).
 func TestC06WitnessReturningAlias(t *testing.T) {
-	db := testdb.Dry(false, gorm.Config{NowFunc: fixedNow})
+	db := newDry()
 	h := db.Model(&User{}).
 		Clauses(clause.Returning{Columns: xs(col("id"))}).
 		Clauses(clause.Returning{Columns: xs(col("name"))}).
@@ -1659,8 +1699,8 @@ func TestC06WitnessLeadingOrSwap(t *testing.T) {
 		return db.Or("age > ?", 40).Where("age >= ?", 20).Session(&gorm.Session{})
 	}
 	var u0, u1, u2 []User
-	alone := build(testdb.Dry(false, gorm.Config{NowFunc: fixedNow})).Find(&u0).Statement
-	h := build(testdb.Dry(false, gorm.Config{NowFunc: fixedNow}))
+	alone := build(newDry()).Find(&u0).Statement
+	h := build(newDry())
 	h.Unscoped().Find(&u1) // another chain from the same handle, executed first
 	got := h.Find(&u2).Statement
 	if got.SQL.String() != alone.SQL.String() || renderVars(got.Vars) != renderVars(alone.Vars) {
@@ -1685,8 +1725,8 @@ func TestC06WitnessLeadingOrSwap(t *testing.T) {
 func TestC06WitnessGroupArgScopes(t *testing.T) {
 	build := func(db *gorm.DB) *gorm.DB { return db.Scopes(scopeAge).Session(&gorm.Session{}) }
 	var u0, u1 []User
-	alone := build(testdb.Dry(false, gorm.Config{NowFunc: fixedNow})).Find(&u0).Statement
-	db := testdb.Dry(false, gorm.Config{NowFunc: fixedNow})
+	alone := build(newDry()).Find(&u0).Statement
+	db := newDry()
 	h := build(db)
 	_ = db.Where(h) // another chain, built and abandoned
 	got := h.Find(&u1).Statement
@@ -1712,8 +1752,8 @@ func TestC06WitnessGroupArgScopes(t *testing.T) {
 func TestC06WitnessGroupArgOr(t *testing.T) {
 	build := func(db *gorm.DB) *gorm.DB { return db.Or("age > ?", 40).Session(&gorm.Session{}) }
 	var u0, u1 []User
-	alone := build(testdb.Dry(false, gorm.Config{NowFunc: fixedNow})).Where("age >= ?", 20).Unscoped().Find(&u0).Statement
-	db := testdb.Dry(false, gorm.Config{NowFunc: fixedNow})
+	alone := build(newDry()).Where("age >= ?", 20).Unscoped().Find(&u0).Statement
+	db := newDry()
 	h := build(db)
 	_ = db.Where(h) // another chain, built and abandoned
 	got := h.Where("age >= ?", 20).Unscoped().Find(&u1).Statement
